@@ -10,10 +10,10 @@ def run(rep, tier, seed):
     q = tier == 'quick'
     ck = (chk_c01,)
     runs = [('L2-tcp-uds', dict(W=2, L=2, uds=True, turns=8, env_per_turn=2, max_conns=4 if q else 5, actions=('connect', 'finish'), track_c01=True, checks=ck)),
-            ('pause-stop', dict(W=1, L=2, limit=2, turns=5 if q else 7, env_per_turn=2, max_conns=3, actions=('connect', 'finish', 'pause', 'resume', 'stop'), track_c01=True, checks=ck)),
-            ('fault', dict(W=2, L=1, turns=5 if q else 7, env_per_turn=2, max_conns=4, actions=('connect', 'finish', 'die', 'replace'), track_c01=True, checks=ck))]
+            ('pause-stop', dict(W=1, L=2, limit=2, turns=5 if q else 6, env_per_turn=2, max_conns=3, actions=('connect', 'finish', 'pause', 'resume', 'stop'), track_c01=True, checks=ck)),
+            ('fault', dict(W=2, L=1, turns=5 if q else 6, env_per_turn=2, max_conns=4, actions=('connect', 'finish', 'die', 'replace'), track_c01=True, checks=ck))]
     if not q:
-        runs += [('W3-L2', dict(W=3, L=2, turns=7, env_per_turn=2, max_conns=5, actions=('connect', 'finish'), track_c01=True, pickup=True, checks=ck))]
+        runs += [('W3-L2', dict(W=3, L=2, turns=5, env_per_turn=2, max_conns=4, actions=('connect', 'finish'), track_c01=True, pickup=True, checks=ck))]
     ctx = run_accept_property(rep, 'C01', runs, tier, seed)
     try:
         from props import wrkworld
